@@ -266,17 +266,17 @@ def _insert_at(stack, index, item):
     return stack[:p] + [item] + stack[p:]
 
 
-POS_QUICK = [dict(size=2), dict(size=3)]
-POS_THOROUGH = [dict(size=4)]
+POS_QUICK = [dict(size=2, maxM=1), dict(size=3, maxM=0)]
+POS_THOROUGH = [dict(size=3, maxM=1), dict(size=4, maxM=0)]
 
 
 @harness("C15", bounds="stack assembled by 2..3 (thorough: 4) addInterface calls; the first without position, every "
                        "later one with index = None or a symbolic int in [-(len+1), len+1] (0, negative, past-the-end "
                        "included; the proxy itself is handed to addInterface); reverse-at-EOL symbolic on every "
-                       "interface; 1 cycle x 0..1 steps",
+                       "interface; 1 cycle x 0..1 steps (0 steps for the 3-stack in the quick tier)",
          stubs=STUBS, max_paths=40000, instances={"quick": POS_QUICK, "thorough": POS_THOROUGH})
-def interfaces_added_at_a_position_run_in_stack_order(ctx, size):
-    m = pick(ctx.int("m0", 0, 1), 0, 1)
+def interfaces_added_at_a_position_run_in_stack_order(ctx, size, maxM):
+    m = pick(ctx.int("m0", 0, maxM), 0, maxM)
     names = ["A", "B", "C", "D"][:size]
     idx, none, rev = {}, {}, {}
     for k, nm in enumerate(names):                      # every input declared before any branching
@@ -294,7 +294,7 @@ def interfaces_added_at_a_position_run_in_stack_order(ctx, size):
         o.addInterface(Rec(r, cs, log, nm, function="f_" + nm), index=index, reverseAtEOL=reverse)
         got_stack = [i.name for i in o.interfaces]      # (a proxy index has been pinned to one value by now)
         specs = _insert_at(specs, index, IfaceSpec(nm, reverse=reverse))
-        if ctx.canary and k == size - 1 and index is not None and index == -2 and reverse and not specs[0].reverse:
+        if ctx.canary and k == size - 1 and index is not None and index == -2 and reverse and not specs[-1].reverse:
             specs = specs[1:] + specs[:1]
         ctx.check("addInterface #%d puts the interface at the requested position and keeps the others in order" % k,
                   got_stack == [s.name for s in specs])
